@@ -18,7 +18,7 @@ sys.path.insert(0, os.path.dirname(os.path.abspath(__file__)))
 VERIF_ROOT = os.path.dirname(os.path.dirname(os.path.abspath(__file__)))
 from rustsrc import Source, Item, ExtractError, mask, match_close, loop_headers, split_args  # noqa: E402
 
-SECTION_KEYS = ('proof_begin', 'assumed_from', 'props', 'requires', 'ensures', 'decreases', 'invariant', 'loopdec', 'proof', 'returns', 'attr',
+SECTION_KEYS = ('loopproof', 'proof_begin', 'assumed_from', 'props', 'requires', 'ensures', 'decreases', 'invariant', 'loopdec', 'proof', 'returns', 'attr',
                 'derive+', 'nested', 'specialize', 'novac', 'external_body', 'rename', 'recommends', 'loopiter',
                 'opens_invariants', 'no_unwind')
 
@@ -34,6 +34,7 @@ class Contract:
         self.loopiter = {}      # loop ordinal -> name for `for x in NAME: expr`
         self.proof = None       # text
         self.proof_begin = None
+        self.loopproof = {}     # loop ordinal -> proof text placed at the beginning of the loop body
         self.returns = None
         self.attrs = []
         self.derive_add = []
@@ -133,6 +134,9 @@ class Unit:
             if key == 'proof':
                 c.proof = (c.proof + '\n' if c.proof else '') + text
                 return
+            if key == 'loopproof':
+                c.loopproof[arg] = (c.loopproof.get(arg, '') + '\n' if c.loopproof.get(arg) else '') + text
+                return
             if key == 'proof_begin':
                 c.proof_begin = (c.proof_begin + '\n' if c.proof_begin else '') + text
                 return
@@ -201,15 +205,15 @@ class Unit:
                 continue
             if cur is None:
                 continue
-            in_proof = section is not None and section[0] in ('proof', 'proof_begin')
+            in_proof = section is not None and section[0] in ('proof', 'proof_begin', 'loopproof')
             if not line or ((line == '#' or line.startswith('# ')) and not in_proof):
                 if in_proof and buf is not None:
                     buf.append(raw)
                 continue
             first = line.split()[0]
             indent = len(raw) - len(raw.lstrip())
-            is_key = first in SECTION_KEYS and (section is None or section[0] not in ('proof', 'proof_begin') or indent <= 2)
-            if is_key and (clause_indent is None or indent < clause_indent or section is None or section[0] in ('proof', 'proof_begin')):
+            is_key = first in SECTION_KEYS and (section is None or section[0] not in ('proof', 'proof_begin', 'loopproof') or indent <= 2)
+            if is_key and (clause_indent is None or indent < clause_indent or section is None or section[0] in ('proof', 'proof_begin', 'loopproof')):
                 flush_clause()
                 rest = line[len(first):].strip()
                 c = target()
@@ -221,6 +225,10 @@ class Unit:
                     clause_indent = None
                 elif first in ('proof', 'proof_begin'):
                     section = (first, None)
+                    clause_indent = None
+                    buf = []
+                elif first == 'loopproof':
+                    section = ('loopproof', int(rest))
                     clause_indent = None
                     buf = []
                 elif first == 'returns':
@@ -271,7 +279,7 @@ class Unit:
                 continue
             if section is None:
                 raise ExtractError('%s:%d: text outside a section: %s' % (self.path, i, line))
-            if section[0] in ('proof', 'proof_begin'):
+            if section[0] in ('proof', 'proof_begin', 'loopproof'):
                 buf.append(raw)
                 continue
             if clause_indent is None:
@@ -411,13 +419,16 @@ class Emitter:
                     raise ExtractError('%s: loopiter on non-for loop %d' % (fnid, k))
                 mm = re.compile(r'\bin\b').search(masked, kw, br)
                 edits.append((mm.end(), ' %s:' % contract.loopiter[k]))
+            if k in contract.loopproof:
+                ptxt = '\n' + mark('        proof {\n' + contract.loopproof[k] + '\n        }', fnid + '::proof')
+                edits.append((br + 1, ptxt))
             if inv or dec:
                 ins = '\n'
                 ins += clause_block('invariant', inv or [], fnid, 'inv%d' % k, indent='        ')
                 ins += clause_block('decreases', dec or [], fnid, 'ldec%d' % k, indent='        ')
                 edits.append((br, ins + '    '))
                 used.add(k)
-        for k in list(contract.invariants) + list(contract.loopdec) + list(contract.loopiter):
+        for k in list(contract.invariants) + list(contract.loopdec) + list(contract.loopiter) + list(contract.loopproof):
             if k > len(own_loops):
                 raise ExtractError('%s: contract names loop %d but the function has %d loops (anchor lost)' % (fnid, k, len(own_loops)))
         if contract.proof_begin:
